@@ -108,6 +108,9 @@ Definition bind {A B} (m : M A) (f : A -> M B) : M B :=
 Notation "x <- m ;; k" := (bind m (fun x => k)) (at level 61, m at next level, right associativity).
 Notation "m ;;; k" := (bind m (fun _ => k)) (at level 61, right associativity).
 Definition gets {A} (f : state -> A) : M A := fun st => (st, ROk (f st)).
+(* an error inside m is "left open" instead *)
+Definition err_unspec {A} (m : M A) : M A :=
+  fun st => let '(st1, r) := m st in (st1, match r with RErr => RUnspec | x => x end).
 
 (* ---- primitives that change the state -------------------------------------------------- *)
 Definition set_frames (st : state) (fs : list frame) : state :=
@@ -616,6 +619,10 @@ Fixpoint eval (n : nat) (F : nat) (e : expr) {struct n} : M val :=
           end
         end
       end
+    | EBin OpLt a b =>
+      (* the implementation evaluates the operands of < a second time when they are not two
+         numbers or fail: such comparisons are left open *)
+      err_unspec (va <- eval k F a ;; vb <- eval k F b ;; stop (binop_sem OpLt va vb))
     | EBin op a b =>
       va <- eval k F a ;; vb <- eval k F b ;; stop (binop_sem op va vb)
     | EFunc params body => m_add_clo (mkClo params body F None None)
